@@ -170,7 +170,7 @@ func runC04(c *Ctx) {
 		f, _ := fit.NewFile(fit.FileTypeActivity, h)
 		f.FileId.Manufacturer = fit.ManufacturerDevelopment
 		a, _ := f.Activity()
-		for k := 0; k < 7000; k++ {
+		for k := 0; k < 9000; k++ {
 			r := fit.NewRecordMsg()
 			r.Timestamp = time.Unix(1500000000+int64(k), 0).UTC()
 			r.HeartRate = uint8(60 + k%100)
@@ -183,7 +183,7 @@ func runC04(c *Ctx) {
 				d, ig, pn := rejects(buf.Bytes())
 				if d || ig || pn {
 					c.report(fmt.Sprintf("encode-output-rejected:large:decode=%v,integrity=%v,panic=%v", d, ig, pn),
-						fmt.Sprintf("Encode succeeded but its output (7000 records, %d bytes) is rejected: Decode error=%v CheckIntegrity error=%v panic=%v", buf.Len(), d, ig, pn), nil)
+						fmt.Sprintf("Encode succeeded but its output (9000 records, %d bytes) is rejected: Decode error=%v CheckIntegrity error=%v panic=%v", buf.Len(), d, ig, pn), nil)
 				}
 			}
 		}
